@@ -169,9 +169,10 @@ def post_once(om, parts, boundary, quoted, M, framing):
     ctype = 'multipart/form-data; boundary=' + b
     if framing == 'chunked':
         # 7-byte chunks; bodies of even length above the threshold travel in chunks of exactly the threshold (the decoder's read block)
-        step = M if (len(body) > M and len(body) % 2 == 0) else 7
+        step = M if (len(body) > M and len(body) % 2 == 0) else (7 if len(body) % 3 else 11)
         pieces = [body[i:i + step] for i in range(0, len(body), step)]
-        env = wsgi.environ('POST', '/u', body=refmp.chunked_encode(pieces), ctype=ctype, chunked=True)
+        # (11-byte chunks are announced as 'B': hex digits are case-insensitive; some clients add a chunk extension)
+        env = wsgi.environ('POST', '/u', body=refmp.chunked_encode(pieces, hexfmt='%X', ext=b';n=1' if len(body) % 5 == 0 else b''), ctype=ctype, chunked=True)
     elif framing == 'cl-short':
         from props.c06 import ShortStream       # a connection that answers every read with about half of what was asked for
         env = wsgi.environ('POST', '/u', input=ShortStream(body, 'half'), clen=len(body), ctype=ctype)
